@@ -17,7 +17,7 @@ for pid in ids:
         "evidence_file": f"/verif/evidence/{pid}.json",
         "replay_cmd_template": f"./check {pid} --replay {{path}}",
         "engine": "lean-proof+correspondence",
-        "level_claimed": {"category": "proof", "text": t["text"], "design_ref": t["design_ref"]},
+        "level_claimed": {"category": PROPS[pid].get("level", "proof"), "text": t["text"], "design_ref": t["design_ref"]},
         "level_note": t["note"],
         "technique": t["technique"],
     })
